@@ -1819,6 +1819,8 @@ ObsVerdict(o) ==
                     [] o.op = "add_scaled" -> H_add_scaled(o.d0, o.a, o.b) [] o.op = "add_ext" -> H_add_ext(o.a, o.b, o.c, o.d0)
                     [] o.op = "lea" -> H_add_ext(o.a, o.b, o.c, o.d0)
          IN IF Match(o.out, e) THEN "" ELSE "value"
+  ELSE IF o.k = "skip" THEN                                 \* a guarded region that was not executed must not have stored anything
+         IF \A j \in 1..Len(o.out) : o.out[j] = 205 THEN "" ELSE "memory"
   ELSE IF o.k = "const" THEN
          IF ConstOk(o) THEN "" ELSE "constant"
   ELSE "harness"
